@@ -139,8 +139,8 @@ def _inspect(inp, K, nodes, R, L, S0, what):
                            what + ': next(%r) differs' % (s,))
         if not K.next(s):
             return Failure('kripke', inp, 'every state has a successor', 'next(%r) is empty' % (s,), what)
-    ids = [id(K.labels(s)) for s in nodes]
-    if len(set(ids)) != len(ids):
+    held = [K.labels(s) for s in nodes]              # keep them alive: ids of dead temporaries collide
+    if len(set(map(id, held))) != len(held):
         return Failure('kripke', inp, 'each state has its own label set', 'two states share one set object', what)
     if set(K.S0) != S0:
         return Failure('kripke', inp, _txt(S0), _txt(K.S0), what + ': initial states differ')
